@@ -74,8 +74,60 @@ func drawCorruption(s *sim.Src, img []byte, prev []byte) corruption {
 	}
 	be32 := func(v uint32) []byte { b := make([]byte, 4); binary.BigEndian.PutUint32(b, v); return b }
 	be16 := func(v uint16) []byte { b := make([]byte, 2); binary.BigEndian.PutUint16(b, v); return b }
-	kind := s.Weighted([]int{6, 6, 4, 3, 6, 5, 5, 3, 3, 4, 3, 3, 3, 2, 4, 3}, "corruption")
+	kind := s.Weighted([]int{6, 6, 4, 3, 6, 5, 5, 3, 3, 4, 3, 3, 3, 2, 4, 3, 3}, "corruption")
 	switch kind {
+	case 16: // crafted: an acyclic tower of interior pages, every child pointer of a level leading to the next
+		// No page is its own ancestor and the depth stays below any recursion limit, but a
+		// traversal that does not notice shared pages does fanout^levels work on a file of a
+		// few kilobytes.
+		for try := 0; try < 12; try++ {
+			p := pickPage()
+			if p.No == 1 || (p.Type != 0x05 && p.Type != 0x02) || p.RightOff < 0 {
+				continue
+			}
+			var offs []int
+			for _, c := range p.Cells {
+				if c.LeftOff >= 0 {
+					offs = append(offs, c.LeftOff)
+				}
+			}
+			offs = append(offs, p.RightOff)
+			f := len(offs)
+			if f < 2 {
+				continue
+			}
+			levels, work := 1, f
+			for work < 3000000 && levels < 22 {
+				work *= f
+				levels++
+			}
+			src := p.No
+			return corruption{"dag-tower", fmt.Sprintf("interior page %d (fan-out %d): %d copies appended, every child pointer of a level leads to the next level, the last level to the original children", src, f, levels), func(im []byte) []byte {
+				if src*u > len(im) {
+					return im
+				}
+				n0 := len(im) / u
+				out := append([]byte(nil), im[:n0*u]...)
+				orig := append([]byte(nil), im[(src-1)*u:src*u]...)
+				for i := 1; i <= levels; i++ {
+					cp := append([]byte(nil), orig...)
+					if i < levels {
+						for _, o := range offs {
+							copy(cp[o:], be32(uint32(n0+i+1)))
+						}
+					}
+					out = append(out, cp...)
+				}
+				for _, o := range offs {
+					copy(out[(src-1)*u+o:], be32(uint32(n0+1)))
+				}
+				// in-header database size, so that the new pages are inside the file for everybody
+				if len(out) >= 100 {
+					binary.BigEndian.PutUint32(out[28:32], uint32(n0+levels))
+				}
+				return out
+			}}
+		}
 	case 0: // child pointer
 		for try := 0; try < 8; try++ {
 			p := pickPage()
